@@ -56,7 +56,9 @@ func main() {
 		}
 		r := vf.NewRun(c.ID, tier)
 		r.Args = os.Args[4:]
-		c.Run(r)
+		if p, w := vf.Guard(func() { c.Run(r) }); p {
+			r.StrayPanic("main goroutine", w)
+		}
 		os.Exit(r.Finish("model_checking"))
 	case "replay":
 		if len(os.Args) < 3 {
